@@ -178,6 +178,9 @@ func ruleC11_1(c *Ctx) {
 					case cc.IsInvoke() && obs[cc.Value] == "destination":
 					case !cc.IsInvoke() && obs[cc.Value] == "printer":
 					case isPureFormatting(i):
+					case c.observerOnly(cc.StaticCallee(), map[*ssa.Function]bool{}):
+						// a helper that does nothing but talk to the observer it is handed (e.g. the switch over the
+						// verb that calls the destination, moved into its own function)
 					default:
 						report(ins, "call "+calleeName(i))
 					}
@@ -590,4 +593,59 @@ func ruleC11_3(c *Ctx) {
 		}
 	}
 	R.Check(okFill && wrote, key+"#field", pos, "the field is filled with spaces first and written whole (14 columns)", fmt.Sprintf("fill=%v write=%v", okFill, wrote))
+}
+
+// observerOnly: the function has no results, and all it does is call methods of / through observer values it
+// received as parameters (recursively through helpers of the same kind); it stores nothing outside its own locals.
+func (c *Ctx) observerOnly(fn *ssa.Function, seen map[*ssa.Function]bool) bool {
+	if fn == nil || fn.Blocks == nil || !c.P.FnInModule(fn) || fn.Signature.Results().Len() != 0 {
+		return false
+	}
+	if seen[fn] {
+		return true
+	}
+	seen[fn] = true
+	obs := c.observerValues(fn)
+	if len(obs) == 0 {
+		return false
+	}
+	for _, b := range fn.Blocks {
+		for _, ins := range b.Instrs {
+			switch x := ins.(type) {
+			case *ssa.Store:
+				// only into locals
+				root := x.Addr
+				for {
+					switch a := root.(type) {
+					case *ssa.IndexAddr:
+						root = a.X
+						continue
+					case *ssa.FieldAddr:
+						root = a.X
+						continue
+					}
+					break
+				}
+				if _, isAlloc := root.(*ssa.Alloc); !isAlloc {
+					return false
+				}
+			case *ssa.MapUpdate, *ssa.Send, *ssa.Go, *ssa.Defer, *ssa.Panic:
+				return false
+			case *ssa.Call:
+				cc := x.Common()
+				switch {
+				case cc.IsInvoke() && obs[cc.Value] != "":
+				case !cc.IsInvoke() && obs[cc.Value] != "":
+				default:
+					if _, isB := cc.Value.(*ssa.Builtin); isB {
+						continue
+					}
+					if !c.observerOnly(cc.StaticCallee(), seen) {
+						return false
+					}
+				}
+			}
+		}
+	}
+	return true
 }
